@@ -320,7 +320,7 @@ SPEC = {
              'thorough adds every edge set of the partitions with nu*nv > 16 up to 5x5 against Kuhn\'s algorithm; every ORDERED edge list with repetitions '
              '(length <= nu*nv+1) for shapes with nu*nv <= 4 and random duplicate-padded lists whose length hits nu*nv, nu*nv+-1, nu, nv, nu+nv; random graphs up to 60x60 '
              '(empty, sparse, dense, complete, duplicate edges, long augmenting paths) with a logical-step budget 50(U+V+E)^2+1000 counted by '
-             'sys.monitoring (function entries, loop back-edges, branches inside bipartite_graph.py); in situ: every per-site bipartite problem '
+             'sys.monitoring (function entries, loop back-edges, branches inside bipartite_graph.py); deep: paths with an unmatched root, ladders with one augmenting path through every vertex and caterpillars with 600..3000 vertices per side, relabelled / reordered (depth beyond the recursion limit of the interpreter); in situ: every per-site bipartite problem '
              'raised by from_opchains for built-in/molecular Hamiltonians and random chain lists. Non-trivial = at least one edge and more '
              'than one vertex pair; distinct = (shape or density class, size class, orientation, matching-size class).'),
     'deciding': ['matching.repeated-call-on-same-solver', 'matching.maximum', 'matching.subset-of-edges', 'matching.vertex-disjoint', 'cover.touches-every-edge', 'cover.minimum',
